@@ -17,6 +17,17 @@ Clauses (statement -> clause):
   transform linear and inverted by re-sampling on the same grid                 C12.linear_inverse
   sine kind: transform / re-sampling pair                   C12.sin.pair
   custom basis fitted by least squares reproduces its span  C12.func_int_general.runs  (KNOWN DEFECT: TypeError for every input)
+                                                            C12.func_int_general.span  (coefficients of a function in the span
+                                                            of monomials / Legendre / shifted Chebyshev / exponentials at arbitrary
+                                                            nodes, shared 1-D or per-mode 2-D X, array or list, rcond given or not,
+                                                            function scale 1e-8 .. 1e8, and func_get(funcs=...) at arbitrary points)
+  three-term recurrence of the basis                        C12.func_basis.values (m = 1.., 1-D / 2-D / 3-D X, end points)
+
+Parameter coverage (audit): d = 4 and 5 for the TT routines (interior cores beyond the neighbours of the boundary
+cores) and d = 4 dense; function scales 1e-4^d and 1e+4^d (kinds 'tiny' / 'huge'; the statement is homogeneous);
+boxes of width 4e-7, 4e-6 (one-sided), 8e6, far from the origin (3e5, 7e5) - absolute tolerances on points or
+bounds show there; argument forms: points as list of lists / single point as list, bounds as ndarray / list / number,
+new grid m as ndarray / list / int / float (coarser and finer than n), func_sum with ndarray bounds and explicit kind.
 
 Tolerance (scale-aware): every quantity is bounded by S = sum_t prod_k sum_j |c_{t,k,j}|; rounding of the scaled
 argument tau is amplified by |p'| <= n^2 S and by kappa = max(|a|,|b|)/(b-a), hence
@@ -29,16 +40,19 @@ from rtc.api import clause, PASS, FAIL, TRIVIAL, SKIP, check
 from rtc import gen
 
 BUDGET = (100, 800)
-BOUNDS = ('d = 1..3 (dense) / 2..3 (TT), n_k in 2..6 (quick) / 2..8 (thorough), R = 1..3 product terms, integer and '
-          'Gaussian monomial coefficients, 9 boxes (symmetric, one-sided, far from the origin, wide), <= 12 evaluation '
-          'points per case, new grids m_k in 2..9; diff matrices n = 2..8 (12 thorough), orders 1..3')
+BOUNDS = ('d = 1..4 (dense) / 2..5 (TT), n_k in 2..6 (quick) / 2..8 (thorough), R = 1..3 product terms, integer and '
+          'Gaussian monomial coefficients, function scales 1e-4^d .. 1e4^d, 13 boxes (symmetric, one-sided, far from the origin, '
+          'wide, widths 4e-7 .. 8e6), <= 12 evaluation '
+          'points per case, new grids m_k in 2..9; diff matrices n = 2..8 (12 thorough), orders 1..3; custom bases: 4 families, '
+          'd = 2..4, 2..5 nodes per mode, cond <= 0.01 / rcond; func_basis m = 1..10')
 
 EPS = np.finfo(float).eps
 Pm = np.polynomial.polynomial
 Pc = np.polynomial.chebyshev
 
-BOXES = [(-1., 1.), (-2.5, 2.5), (0., 1.), (-3., -1.), (1e-3, 5.), (-1e3, 2e3), (10., 10.5), (-0.25, 0.25), (-1., 3.)]
-SYM = [0, 1, 7]
+BOXES = [(-1., 1.), (-2.5, 2.5), (0., 1.), (-3., -1.), (1e-3, 5.), (-1e3, 2e3), (10., 10.5), (-0.25, 0.25), (-1., 3.),
+         (-1e-6, 3e-6), (-4e6, 4e6), (-2e-7, 2e-7), (3e5, 7e5)]        # 9..12: tiny / huge boxes (appended: audit)
+SYM = [0, 1, 7, 10, 11]
 
 
 def _coefs(n, R, seed, kind):
@@ -51,6 +65,8 @@ def _coefs(n, R, seed, kind):
             c = g.integers(-3, 4, size=nk).astype(float) if kind == 'int' else g.normal(size=nk)
             if not np.any(c):
                 c[0] = 1.
+            if kind in ('tiny', 'huge'):        # function scale (per factor 1e-4 / 1e+4): the statement is homogeneous
+                c = c * (1e-4 if kind == 'tiny' else 1e4)
             row.append(c)
         C.append(row)
     return C
@@ -211,6 +227,13 @@ def tt_get(n, a, b, R, seed, kind, m):
         msg = _cmp(teneva.func_get(X, A, a[0], b[0], z=-7.5), y, tol, 'scalar bounds vs list bounds')
         if msg:
             return FAIL(msg)
+    # other argument forms: points as a list of lists, bounds as arrays, a single point as a list
+    msg = _cmp(teneva.func_get(X.tolist(), A, np.array(a), np.array(b), -7.5), y, tol, 'list points / array bounds')
+    if msg:
+        return FAIL(msg)
+    y1 = teneva.func_get(X[-1].tolist(), A, np.array(a), b, skip_out=True)
+    if not (np.ndim(y1) == 0 and abs(y1 - y[-1]) <= tol):
+        return FAIL(f'single point given as a list: {y1!r} vs batch value {y[-1]!r}')
     g = gen.rng('C12.corner', seed)
     Xc = np.array([[(a[k], b[k])[int(g.integers(2))] for k in range(len(n))] for _ in range(4)])
     msg = _cmp(teneva.func_get(Xc, A, a, b, z=-7.5), _f(Xc, C, a, b), tol, 'func_get(corners of the box)')
@@ -276,6 +299,11 @@ def tt_gets(n, a, b, R, seed, kind, m):
     if msg:
         return FAIL('func_gets result not well-formed: ' + msg)
     msg = _cmp(gen.dense(Z), _values_dense(C, mm), tol, f'values on the new grid {mm}')
+    if msg:
+        return FAIL(msg)
+    # other forms of the grid argument: array for a list, float for an int
+    Z2 = teneva.func_gets(A, float(m) if isinstance(m, int) else np.array(mm))
+    msg = gen.wf(Z2, mm) or _cmp(gen.dense(Z2), gen.dense(Z), 0., 'array / float form of m')
     return FAIL(msg) if msg else PASS
 
 
@@ -293,7 +321,8 @@ def tt_sum(n, a, b, R, seed, kind):
         msg = _cmp(teneva.func_sum(A, a[0], b[0]), v, _tol(C, n, [-1.] * len(n), [1.] * len(n)) * vol, 'scalar bounds vs list bounds')
         if msg:
             return FAIL(msg)
-    return PASS
+    msg = _cmp(teneva.func_sum(A, np.array(a), np.array(b), 'cheb'), v, 0., 'array bounds vs list bounds')
+    return FAIL(msg) if msg else PASS
 
 
 # ------------------------------------------------------------------ dense routines
@@ -565,6 +594,106 @@ def func_int_general_runs(n, R, seed, basis, shared):
     return PASS
 
 
+def _phi(basis, nb):
+    """custom basis phi_0..phi_{nb-1}: callable x (1-D) -> array (nb, len(x))"""
+    def phi(x):
+        x = np.asarray(x, dtype=float)
+        if basis == 'mono':
+            return np.array([x ** j for j in range(nb)])
+        if basis == 'legendre':
+            return np.array([np.polynomial.legendre.legval(x, [0.] * j + [1.]) for j in range(nb)])
+        if basis == 'expo':         # not polynomial: 1, e^{x/2}, e^{x}, ...
+            return np.array([np.exp(0.5 * j * x) for j in range(nb)])
+        return np.array([np.cos(j * np.arccos(np.clip(x, -1, 1))) + (0.5 if j else 0.) for j in range(nb)])
+    return phi
+
+
+@clause('C12.func_int_general.span', funcs=('func.func_int_general', 'func.func_get'))
+def func_int_general_span(d, nb, R, seed, basis, shared, form, rcond, scale, lo, hi):
+    """A function in the span of a custom basis, f = sum_t prod_k sum_j c_{t,k,j} phi_j(x_k), sampled at nb arbitrary
+    distinct nodes per mode (shared 1-D X, per-mode 2-D X as array or list of lists; interval [lo, hi] not symmetric):
+    func_int_general returns a coefficient tensor equal to sum_t outer(c_{t,1}, ..., c_{t,d}) and
+    func_get(., funcs=basis) reproduces f at arbitrary points.  Inputs whose collocation matrix has a condition
+    number above 0.01 / rcond are skipped (the least-squares cut-off would drop basis directions)."""
+    n = [nb] * d
+    g = gen.rng('C12.span', d, nb, R, seed, basis, shared)
+    phi = _phi(basis, nb)
+    C = [[c * scale ** (1. / d) for c in row] for row in _coefs(n, R, seed, 'gauss')]
+    nodes = []
+    for k in range(1 if shared else d):
+        x = np.sort(g.uniform(lo, hi, size=nb))
+        x = lo + (hi - lo) * (np.arange(nb) + 0.5 + 0.3 * g.uniform(-1, 1, size=nb)) / nb     # distinct, irregular
+        nodes.append(x[g.permutation(nb)])
+    nodes = nodes * d if shared else nodes
+    H = [phi(x) for x in nodes]                                  # (basis, points)
+    cond = max(np.linalg.cond(h) for h in H)
+    rc = 1e-6 if rcond is None else rcond
+    if not cond * rc <= 0.01:
+        return SKIP(f'collocation matrix too ill-conditioned for rcond={rc}: {cond:.2e}')
+    Y = []
+    for k in range(d):
+        V = np.array([C[t][k] @ H[k] for t in range(R)])         # (R, points)
+        if k == 0:
+            G = V.T[None, :, :]
+        elif k == d - 1:
+            G = V[:, :, None]
+        else:
+            G = np.zeros((R, nb, R))
+            for t in range(R):
+                G[t, :, t] = V[t]
+        Y.append(np.ascontiguousarray(G))
+    X = nodes[0] if shared else np.array(nodes)
+    if form == 'list':
+        X = X.tolist()
+    kw = {} if rcond is None else dict(rcond=rcond)
+    A = teneva.func_int_general(Y, X, phi, **kw)
+    msg = gen.wf(A, n)
+    if msg:
+        return FAIL('result not well-formed: ' + msg)
+    M = [max(1., float(np.abs(h).max())) for h in H]
+    Sv = float(sum(np.prod([np.abs(c).sum() * M[k] for k, c in enumerate(row)]) for row in C))
+    tol = 64. * EPS * d * nb * cond * Sv
+    msg = _cmp(gen.dense(A), _outer_sum(C), tol, f'coefficient tensor (cond {cond:.1e})')
+    if msg:
+        return FAIL(msg)
+    Xt = g.uniform(lo, hi, size=(5, d))
+    want = np.zeros(5)
+    for row in C:
+        term = np.ones(5)
+        for k, c in enumerate(row):
+            term = term * (c @ phi(Xt[:, k]))
+        want += term
+    got = teneva.func_get(Xt, A, funcs=[phi] * d)
+    msg = _cmp(got, want, tol, 'func_get with the custom basis')
+    if msg:
+        return FAIL(msg)
+    got1 = teneva.func_get(Xt[0], A, funcs=phi)          # one callable for all modes, single point
+    if not (np.ndim(got1) == 0 and abs(got1 - want[0]) <= tol):
+        return FAIL(f'func_get(single point, funcs=callable) = {got1!r}, expected {want[0]!r}')
+    return PASS
+
+
+@clause('C12.func_basis.values', funcs=('func.func_basis',))
+def func_basis_values(m, shape, seed):
+    """func_basis(X, m)[k] = T_k(X) = cos(k arccos X) for k < m, array of shape (m,) + X.shape, for 1-D / 2-D / 3-D X
+    in [-1, 1] (end points included); the argument is not modified."""
+    g = gen.rng('C12.basis', m, shape, seed)
+    X = g.uniform(-1, 1, size=shape)
+    X.flat[0], X.flat[-1] = -1., 1.
+    X0 = X.copy()
+    T = teneva.func_basis(X, m)
+    if not (isinstance(T, np.ndarray) and T.shape == (m,) + tuple(shape)):
+        return FAIL(f'shape {getattr(T, "shape", None)}')
+    if not np.array_equal(X, X0):
+        return FAIL('argument modified')
+    for k in range(m):
+        want = Pc.chebval(X, [0.] * k + [1.])
+        err = float(np.abs(T[k] - want).max())
+        if not err <= 64. * EPS * (k + 1) ** 2:
+            return FAIL(f'T_{k}: error {err:.3e}')
+    return PASS
+
+
 # ------------------------------------------------------------------ case list
 
 def _box(idx):
@@ -610,6 +739,52 @@ def cases(tier, seed):
                         yield 'C12.tt.gets', dict(p, m=[2 + (j + 2 * k) % 8 for k in range(d)])
                         yield 'C12.tt.gets', dict(p, m=2 + j % 6)
                         yield 'C12.tt.sum', p
+    # ---- parameter-coverage additions: d = 4, 5; function scale 1e-4^d / 1e+4^d; tiny / huge / far boxes; array forms
+    j = 0
+    for n, bis in (([2, 3, 2, 3], [[0, 0, 0, 0], [3, 4, 8, 2]]), ([3, 3, 3, 3], [[7, 1, 0, 7], [5, 6, 2, 12]]),
+                   ([4, 2, 3, 2], [[9, 10, 11, 12]]), ([2, 2, 2, 2, 2], [[0] * 5, [2, 3, 4, 6, 8]]),
+                   ([3, 2, 3], [[9, 10, 12], [11, 10, 0]]), ([5, 4], [[9, 12], [10, 11], [11, 11]]),
+                   ([6], [[9], [10], [12]]), ([2, 5, 3], [[1, 7, 0], [8, 5, 6]])):
+        d = len(n)
+        for bi in bis:
+            a, b = _box(bi)
+            for R, kind in ((1, 'int'), (3, 'gauss'), (2, 'tiny'), (2, 'huge')) if big or d >= 4 else ((2, 'tiny'), (3, 'huge')):
+                j += 1
+                p = dict(n=n, a=a, b=b, R=R, seed=1000 + j, kind=kind)
+                if d <= 4:
+                    yield 'C12.full.coeffs', p
+                    yield 'C12.full.get', dict(p, m=4)
+                    yield 'C12.full.gets', dict(p, m=[2 + (j + k) % 3 for k in range(d)] if d == 4 else None)
+                    yield 'C12.full.outside', dict(p, z=[0., -7.5, 1e300][j % 3])
+                    if all(i in SYM for i in bi):
+                        yield 'C12.full.sum', p
+                if d >= 2:
+                    yield 'C12.tt.coeffs', p
+                    yield 'C12.tt.get', dict(p, m=5)
+                    yield 'C12.tt.outside', dict(p, z=[0., -7.5, 1e300][j % 3])
+                    yield 'C12.tt.gets', dict(p, m=[2 + (j + 2 * k) % 8 for k in range(d)])
+                    yield 'C12.tt.gets', dict(p, m=2 + j % 6)
+                    yield 'C12.tt.sum', p
+    for d in (1, 2, 3):
+        for bi in ([9] * d, [10] * d, [11] * d, [12] * d, [11, 10, 9][:d]):
+            a, b = _box(bi)
+            yield 'C12.full.sum.reject', dict(n=[3] * d, a=a, b=b, seed=1)
+    # custom bases: span reproduced (coefficients and evaluation)
+    j = 0
+    for d in (2, 3, 4):
+        for nb in (2, 3, 4, 5) if d < 4 else (2, 3):
+            for basis in ('mono', 'cheb+', 'legendre', 'expo'):
+                for shared in (True, False):
+                    j += 1
+                    if not big and (j + d) % 2:
+                        continue
+                    lo, hi = [(-0.9, 0.8), (-1., 0.2), (0.1, 1.), (-0.5, 1.)][j % 4]
+                    yield 'C12.func_int_general.span', dict(d=d, nb=nb, R=1 + j % 3, seed=j, basis=basis, shared=shared,
+                                                            form=('array', 'list')[j % 3 == 0], rcond=[None, 1e-10, 1e-6][j % 3],
+                                                            scale=[1., 1e-8, 1e8, 1.][j % 4], lo=lo, hi=hi)
+    for m in (1, 2, 3, 6, 10):
+        for shape in ([1], [7], [5, 3], [2, 1], [3, 2, 2]):
+            yield 'C12.func_basis.values', dict(m=m, shape=shape, seed=m)
     # acceptance test of the dense integral
     for d in (1, 2, 3):
         for bi in ([[i] * d for i in range(len(BOXES))] + [[0, 2, 1][:d], [1, 7, 0][:d], [7, 7, 3][:d]]):
